@@ -622,7 +622,8 @@ Section Inv2.
   Proof.
     unfold process_kexinit. intros I.
     destruct (started s) eqn:St; [|exact I]. cbn [negb].
-    destruct (kex_active s) eqn:Ka; [apply Inv_err; exact I|].
+    destruct (kex_active s || is_some (staged s)) eqn:Kas; [apply Inv_err; exact I|].
+    apply orb_false_iff in Kas as [Ka _].
     set (s1 := if is_nil (sid s) then set_markers (can_ext s || ext) (strict s || sp) s else s).
     assert (E1 : e_epoch (env_of s1) = e_epoch (env_of s) /\ e_auth_complete (env_of s1) = e_auth_complete (env_of s)
                  /\ sn s1 = sn s /\ started s1 = true /\ kex_active s1 = false /\ asked s1 = asked s /\ hist s1 = hist s
@@ -883,7 +884,8 @@ Section Quiet.
   Proof.
     unfold process_kexinit. intros I QI.
     destruct (started s) eqn:St; [|exact QI]. cbn [negb].
-    destruct (kex_active s) eqn:Ka; [exact QI|]. unfold QInv in *. rewrite St in QI.
+    destruct (kex_active s || is_some (staged s)) eqn:Kas; [exact QI|].
+    apply orb_false_iff in Kas as [Ka _]. unfold QInv in *. rewrite St in QI.
     set (s1 := if is_nil (sid s) then set_markers (can_ext s || ext) (strict s || sp) s else s).
     assert (E1 : sn s1 = sn s /\ started s1 = true) by (unfold s1; destruct (is_nil (sid s)); auto).
     destruct E1 as [E1 E2]. rewrite E1.
@@ -1074,7 +1076,7 @@ Section Keys.
       apply KW_kexinit; auto.
     - apply (KInv_sn s); try reflexivity; auto. stcbn. apply KW_send; auto.
     - unfold process_kexinit. destruct (started s); [|exact K]. cbn [negb].
-      destruct (kex_active s); [apply (KInv_sn s); try reflexivity; auto|].
+      destruct (kex_active s || is_some (staged s)); [apply (KInv_sn s); try reflexivity; auto|].
       set (s1 := if is_nil (sid s) then set_markers (can_ext s || ext) (strict s || strictp) s else s).
       assert (E1 : sn s1 = sn s /\ e_keys (env_of s1) = e_keys (env_of s) /\ e_epoch (env_of s1) = e_epoch (env_of s)
                    /\ sid s1 = sid s /\ hist s1 = hist s /\ send_keys s1 = send_keys s /\ send_epoch s1 = send_epoch s
@@ -1279,15 +1281,23 @@ Section Final.
   Qed.
 
   Lemma cross_one_exchange s ext sp ts : Inv s -> err s = None -> started s = true ->
-    kexinit_sent (sn s) = true ->
+    kexinit_sent (sn s) = true -> staged s = None ->
     let s' := step Hf c s (RecvKexInit ext sp, ts) in
     wire (sn s') = wire (sn s) /\ kex_active s' = true /\ kexinit_sent (sn s') = false /\ err s' = None.
   Proof.
-    intros I Er St Ks. pose proof (si_mode _ _ _ _ (inv_si _ I)) as M. rewrite St, Ks in M.
+    intros I Er St Ks Sg. pose proof (si_mode _ _ _ _ (inv_si _ I)) as M. rewrite St, Ks in M.
     assert (Ka : kex_active s = false) by (destruct (kex_complete (sn s)), (kex_active s); cbn in M; congruence).
-    unfold step. rewrite Er. cbn [fst snd run_act]. unfold process_kexinit. cbn [started kex_active set_sn sid].
-    rewrite St, Ka. cbn [negb].
+    unfold step. rewrite Er. cbn [fst snd run_act]. unfold process_kexinit. cbn [started kex_active staged set_sn sid].
+    rewrite St, Ka, Sg. cbn [negb orb is_some].
     destruct (is_nil (sid s)); stcbn; prj; rewrite Ks; prj; auto.
+  Qed.
+
+  Lemma kexinit_before_newkeys s ext sp ts : err s = None -> started s = true -> staged s <> None ->
+    err (step Hf c s (RecvKexInit ext sp, ts)) = Some E_KEX_IN_PROGRESS.
+  Proof.
+    intros Er St Sg. unfold step. rewrite Er. cbn [fst snd run_act]. unfold process_kexinit.
+    cbn [started kex_active staged set_sn]. rewrite St. cbn [negb].
+    destruct (staged s); [|congruence]. rewrite orb_true_r. reflexivity.
   Qed.
 
   Lemma newkeys_unsolicited s ts : err s = None -> staged s = None ->
